@@ -132,7 +132,7 @@ def different_calls_different_keys(alias1: str, alias2: str, i1: int, i2: int, s
                                    which: int) -> bool:
     """
     pre: len(alias1) <= B('AL') and len(alias2) <= B('AL') and len(s1) <= B('SL') and len(s2) <= B('SL')
-    pre: 0 <= which <= 3 and 0 <= i1 < B('IMAX') and 0 <= i2 < B('IMAX') and 0 <= p1 < B('IMAX') and 0 <= p2 < B('IMAX')
+    pre: 0 <= which <= 4 and 0 <= i1 < B('IMAX') and 0 <= i2 < B('IMAX') and 0 <= p1 < B('IMAX') and 0 <= p2 < B('IMAX')
     pre: all(ch in 'ab{' for ch in alias1 + alias2) and all(ch in 'ab"' for ch in s1 + s2)
     post: _
     """
@@ -141,7 +141,7 @@ def different_calls_different_keys(alias1: str, alias2: str, i1: int, i2: int, s
     shape = ctx.S('shape')
     capk = ctx.S('capture')
     static = bool(ctx.S('static'))
-    which = ctx.S('which') if ctx.S('which') is not None else ctx.pick(which, (0, 1, 2, 3))
+    which = ctx.S('which') if ctx.S('which') is not None else ctx.pick(which, (0, 1, 2, 3, 4))
     TR = _install(False)
     cap = _capture(capk)
     # the component that differs is symbolic; of the others the int leaves stay symbolic (one code point each), the
@@ -156,6 +156,21 @@ def different_calls_different_keys(alias1: str, alias2: str, i1: int, i2: int, s
         p2 = p1
     differs = (alias1 != alias2) or (i1 != i2) or (s1 != s2) or (p1 != p2)
     v1, v2 = build(shape, i1, s1, True, False), build(shape, i2, s2, True, False)
+    if which == 4:
+        # same leaves, different container / class: list vs tuple, dict vs object with the same attribute
+        twin = {'list': 'tuple', 'tuple': 'list', 'dict': None, 'object': None}.get(shape)
+        if shape in ('list', 'tuple'):
+            v2 = build(twin, i1, s1, True, False)
+        elif shape == 'object':
+            v2 = {'a': i1}
+        else:
+            return ctx.done(True)
+        if capk == 'none':
+            return ctx.done(True)
+        k1 = _call(TR, alias1, static, cap, v1, 5, p1, 6, False, False)
+        k2 = _call(TR, alias1, static, cap, v2, 5, p1, 6, False, False)
+        ctx.mark('differing-calls')
+        return ctx.done(k1 != k2, 'differing-calls')
     # is the differing component part of the captured value at all?
     uses_i = shape in ('int', 'list', 'tuple', 'dict', 'object', 'nested')
     uses_s = shape in ('str', 'list', 'tuple', 'dict', 'set', 'nested')
@@ -258,10 +273,11 @@ CONDITIONS = [
      'what': 'a different alias / captured leaf / captured keyword value => a different key',
      'tiers': {'quick': {'bounds': {'AL': 2, 'SL': 2, 'IMAX': 100}, 'timeout': 300,
                          'shards': [{'shape': sh, 'capture': c, 'static': st, 'which': w} for sh in ('int', 'str', 'list', 'dict', 'nested')
-                                    for c, st in (('all', False), ('by-position-and-name', True)) for w in range(4)],
+                                    for c, st in (('all', False), ('by-position-and-name', True)) for w in range(4)] +
+                                   [{'shape': sh, 'capture': 'all', 'static': False, 'which': 4} for sh in ('list', 'object')],
                          'witness_shard': _W},
                'thorough': {'bounds': {'AL': 3, 'SL': 2, 'IMAX': 1000}, 'timeout': 3000,
-                            'shards': [dict(x, which=w) for x in _TSH for w in range(4)], 'witness_shard': _W}}},
+                            'shards': [dict(x, which=w) for x in _TSH for w in range(5)], 'witness_shard': _W}}},
     {'fn': 'values_only', 'nontrivial': 'mutated-between-calls',
      'what': 'key = function of argument values at call time: mutated object, equal-hash values (1 vs True), call history',
      'tiers': {'quick': {'bounds': {}, 'timeout': 200, 'shards': [{}]},
